@@ -9,6 +9,8 @@
 //                   SIGTERM inherited as ignored (state flags I2/T2) instead of the default action
 //           macro : C               new SignalHandler(solver)
 //                   R:<h>:<d>       solver.interrupter()->SetHandler(cb_h, &data_d)   (h = 0: null callback, d = 0: null data)
+//                   N:<h>:<d>       the same call while no SignalHandler exists (drivers without one: AMPLS C API): it
+//                                   reaches BasicSolver::SetHandler, which must do nothing
 //                   W               opaque solve/report step; queries solver.interrupter()->Stop()
 //                   D               delete the SignalHandler
 //           gap   : index of the program step before which the signal is raised (0 = before the first step,
@@ -33,9 +35,30 @@
 #include <fcntl.h>
 #include <sys/wait.h>
 #include <sys/mman.h>
+#include <sys/resource.h>
 
 #include "mp/solver.h"
 #include "mp/solver-app-base.h"
+#ifdef C15_APP
+// "APP" programs: the SignalHandler is driven by a real mp driver: mp::BackendApp (InitHandlers creates the handler,
+// the destructor tears it down) around a StdBackend (harness/recsolver's RecBackend), whose RunFromNLFile performs
+// ReadNL, SetupTimerAndInterrupter -> SetupInterrupter -> SetInterrupter(interrupter()), Solve, Report.
+#include "mp/backend-app.h"
+#include "recbackend.h"
+#endif
+#ifdef C15_COVERAGE
+#include <sys/syscall.h>
+#include <sys/resource.h>
+extern "C" void __gcov_dump(void);
+// children end with _exit (also from inside HandleSigInt): flush the coverage counters first
+extern "C" void _exit(int code) {
+  struct rlimit rl;                       // the "part" stdout state lowers RLIMIT_FSIZE: lift it for the .gcda files
+  if (getrlimit(RLIMIT_FSIZE, &rl) == 0) { rl.rlim_cur = rl.rlim_max; setrlimit(RLIMIT_FSIZE, &rl); }
+  __gcov_dump();
+  syscall(SYS_exit_group, code);
+  __builtin_unreachable();
+}
+#endif
 
 extern void (*mp_verif_point)(const char *name);   // defined in src/solver.cc under AMPL_MP_VERIF
 
@@ -125,12 +148,13 @@ static void emit(const std::string &s) {
   }
 }
 
+static bool g_solver_alive = true;   // APP programs: the backend is destroyed together with the application object
 static std::string state() {
   char buf[160];
   const char *p = *Stash<PtrTag>::value;
   const char *pk = !p ? "N" : (g_sh && p == (g_sh->*Stash<MsgTag>::value).c_str()) ? "L" : "X";
-  mp::Interrupter *it = g_solver->interrupter();
-  const char *ik = (g_sh && it == static_cast<mp::Interrupter *>(g_sh)) ? "O" : it == g_self ? "S" : "X";
+  mp::Interrupter *it = g_solver_alive ? g_solver->interrupter() : 0;
+  const char *ik = !g_solver_alive ? "-" : (g_sh && it == static_cast<mp::Interrupter *>(g_sh)) ? "O" : it == g_self ? "S" : "X";
   struct sigaction a;
   int di, dt;
   sigaction(SIGINT, 0, &a);  di = a.sa_handler == Stash<FnTag>::value ? 1 : a.sa_handler == SIG_DFL ? 0 : a.sa_handler == SIG_IGN ? 2 : 9;
@@ -145,7 +169,9 @@ static std::string state() {
 //   file (default): a memfd, break text captured by offset;  pipe: a pipe, captured by draining the read end;
 //   null: /dev/null (writable, nothing observable: printed as brk=~);
 //   closed: fd 1 closed;  full: /dev/full (ENOSPC);  ro: fd 1 open read-only  -- write(1, ...) fails: brk=E
-enum OutKind { OUT_FILE, OUT_PIPE, OUT_NULL, OUT_CLOSED, OUT_FULL, OUT_RO };
+//   part: a memfd with RLIMIT_FSIZE 10 bytes past its end: the first write(1, ...) is short (10 of 18 bytes), the
+//         second one fails (EFBIG): the loop goes round once and leaves through `break`: brk=P (a proper prefix)
+enum OutKind { OUT_FILE, OUT_PIPE, OUT_NULL, OUT_CLOSED, OUT_FULL, OUT_RO, OUT_PART };
 static OutKind g_outkind = OUT_FILE;
 static int g_capr = -1;           // read end of the capture pipe (OUT_PIPE)
 
@@ -165,6 +191,14 @@ static std::string drain_pipe(int fd) {
 }
 
 static off_t cap_mark() {
+  if (g_outkind == OUT_PART) {
+    off_t end = lseek(g_cap, 0, SEEK_END);
+    struct rlimit rl;
+    getrlimit(RLIMIT_FSIZE, &rl);
+    rl.rlim_cur = (rlim_t)end + 10;
+    setrlimit(RLIMIT_FSIZE, &rl);
+    return end;
+  }
   if (g_outkind == OUT_FILE) return lseek(g_cap, 0, SEEK_END);
   if (g_outkind == OUT_PIPE) drain_pipe(g_capr);
   return 0;
@@ -172,6 +206,15 @@ static off_t cap_mark() {
 
 static std::string captured_since(off_t from) {
   switch (g_outkind) {
+  case OUT_PART: {
+    off_t end = lseek(g_cap, 0, SEEK_END);
+    std::string s((size_t)(end - from), '\0');
+    if (end > from && pread(g_cap, &s[0], s.size(), from) != (ssize_t)s.size()) return "?";
+    size_t L = sizeof(kBreak) - 1;
+    if (s.empty()) return "0";
+    if (s.size() < L && s == std::string(kBreak, s.size())) return "P";
+    return "?" + std::to_string(s.size());
+  }
   case OUT_FILE: {
     off_t end = lseek(g_cap, 0, SEEK_END);
     if (end == from) return "0";
@@ -230,10 +273,70 @@ static void on_point(const char *name) {
   // step (alloc); sh.set.enter / sh.dtor.enter follow no store: the gap is the one already handled after
   // the previous step.
   if (!strcmp(name, "sh.ctor.enter")) { step_done("sh.ctor.enter"); return; }
+#ifdef C15_APP
+  // the handler object is created inside BackendApp::InitHandlers: its address becomes known to the harness when
+  // the constructor has stored it as the solver's interrupter
+  if (!strcmp(name, "sh.ctor.after_set_interrupter") && !g_sh && g_solver->interrupter() != g_self)
+    g_sh = static_cast<SignalHandler *>(g_solver->interrupter());
+#endif
   size_t n = strlen(name);
   if (n > 6 && !strcmp(name + n - 6, ".enter")) return;
   step_done(name);
+#ifdef C15_APP
+  // last call-out of the destructor: next the application object destroys the backend, which state() must not touch
+  if (!strcmp(name, "sh.dtor.after_msg_size0")) g_solver_alive = false;
+#endif
 }
+
+#ifdef C15_APP
+// APP: plain run;  APPA: with -AMPL (banner, .sol file);  APPE / APPX: Solve throws mp::Error / std::runtime_error
+// (BackendApp::Run reports the error, teardown as usual);  APPU: no stub on the command line (usage, no run)
+static char g_app_variant = ' ';
+static void work_step() {
+  bool q = g_solver->interrupter()->Stop();
+  ++g_step;
+  emit(std::string(" W(q=") + (q ? "1" : "0") + ")" + state());
+  deliver_due();
+}
+// The backend of the APP programs: everything is the real StdBackend/RecBackend; the three overrides are where a
+// real backend talks to the interrupter (compare solvers/visitor/visitorbackend.cc: SetInterrupter calls
+// inter->SetHandler(InterruptVisitor, lp()); Solve polls / is interrupted; ReportResults follows).
+class SigBackend : public mp::RecBackend {
+ public:
+  void SetInterrupter(mp::Interrupter *inter) override { inter->SetHandler(g_cbs[1], (void *)&g_data[1]); }
+  void Solve() override {
+    work_step();
+    if (g_app_variant == 'E') throw mp::Error("solver failed (scripted)", 500);      // BackendApp::Run: catch (mp::Error)
+    if (g_app_variant == 'X') throw std::runtime_error("solver failed (scripted)");  // BackendApp::Run: catch (std::exception)
+    mp::RecBackend::Solve();
+  }
+  void ReportResults() override { work_step(); mp::RecBackend::ReportResults(); }
+};
+static const char *g_stub = 0;
+static SigBackend *g_backend = 0;    // constructed once in the parent (expensive); each child owns its copy
+
+static void run_app(const std::string &mode) {
+  g_sysv = (mode == "sysv");
+  mp_verif_point = on_point;
+  emit("start" + state());
+  deliver_due();
+  {
+    mp::BackendApp app{std::unique_ptr<mp::BasicBackend>(g_backend)};   // InitHandlers: new SignalHandler(backend)
+    char a0[] = "h_signal_app", ampl[] = "-AMPL";
+    std::string stub(g_stub);
+    char *argv[] = {a0, &stub[0], g_app_variant == 'A' ? ampl : 0, 0};
+    if (g_app_variant == 'U') argv[1] = 0;
+    app.Run(argv);
+  }                                  // ~BackendApp: handler object first (declared last), then the backend
+  {
+    g_sh = 0;
+    pin_freed(*Stash<PtrTag>::value);
+    step_done("free");
+  }
+  emit(" end");
+  _exit(0);
+}
+#endif
 
 // The real constructor stores `this` as the interrupter before the object pointer is known to the harness:
 // give state() the address early through placement construction.
@@ -262,6 +365,11 @@ static void run_child(const std::string &mode, const std::vector<std::string> &p
       ++g_step;
       emit(std::string(" W(q=") + (q ? "1" : "0") + ")" + state());
       deliver_due();
+    } else if (m.size() >= 5 && m[0] == 'N') {
+      int h = 0, d = 0;
+      if (sscanf(m.c_str(), "N:%d:%d", &h, &d) != 2 || h < 0 || h > 7 || d < 0 || d > 7 || g_sh) { emit(" bad-op"); _exit(94); }
+      g_solver->interrupter()->SetHandler(g_cbs[h], d ? (void *)&g_data[d] : (void *)0);
+      step_done("N");
     } else if (m.size() >= 5 && m[0] == 'R') {
       int h = 0, d = 0;
       if (sscanf(m.c_str(), "R:%d:%d", &h, &d) != 2 || h < 0 || h > 7 || d < 0 || d > 7) { emit(" bad-op"); _exit(94); }
@@ -278,7 +386,14 @@ int main(int argc, char **argv) {
   if (argc > 1) g_steps_per_reg = atoi(argv[1]);
   if (!mp_verif_point) { /* hook variable exists (link succeeded); null by default as required */ }
   else { fprintf(stderr, "mp_verif_point is not null by default\n"); return 3; }
+#ifdef C15_APP
+  if (argc < 3) { fprintf(stderr, "usage: h_signal_app <steps per SetHandler> <stub>\n"); return 2; }
+  g_stub = argv[2];
+  g_backend = new SigBackend;
+  mp::BasicSolver &solver = *g_backend;
+#else
   mp::BasicSolver solver;
+#endif
   g_solver = &solver;
   g_self = solver.interrupter();
   char *line = 0;
@@ -303,7 +418,7 @@ int main(int argc, char **argv) {
     bool bad = (mode != "bsd" && mode != "sysv"), insched = false;
     OutKind ok = OUT_FILE;
     if (outs == "file") ok = OUT_FILE; else if (outs == "pipe") ok = OUT_PIPE; else if (outs == "null") ok = OUT_NULL;
-    else if (outs == "closed") ok = OUT_CLOSED; else if (outs == "full") ok = OUT_FULL; else if (outs == "ro") ok = OUT_RO;
+    else if (outs == "closed") ok = OUT_CLOSED; else if (outs == "full") ok = OUT_FULL; else if (outs == "ro") ok = OUT_RO; else if (outs == "part") ok = OUT_PART;
     else bad = true;
     if (inh != "dfl" && inh != "ign") bad = true;
     for (size_t k = 1; k < toks.size() && !bad; ++k) {
@@ -321,10 +436,27 @@ int main(int argc, char **argv) {
     {
       bool alive = false;
       int nsteps = 0;
+#ifdef C15_APP
+      if (prog.size() != 1 || prog[0].compare(0, 3, "APP") != 0 || prog[0].size() > 4 ||
+          (prog[0].size() == 4 && !strchr("AEXU", prog[0][3]))) bad = true;
+      g_app_variant = (!bad && prog[0].size() == 4) ? prog[0][3] : ' ';
+      nsteps = g_app_variant == 'U' ? 7 + 5 : (g_app_variant == 'E' || g_app_variant == 'X') ? 7 + g_steps_per_reg + 1 + 5
+                                                                                            : 7 + g_steps_per_reg + 1 + 1 + 5;
+      if (!bad)
+        if (!sched.empty() && sched.back().gap > nsteps) bad = true;
+      if (false)
+#endif
       for (const std::string &m : prog) {
         if (m == "C") { if (alive) bad = true; alive = true; nsteps += 7; }
         else if (m == "D") { if (!alive) bad = true; alive = false; nsteps += 5; }
         else if (m == "W") nsteps += 1;
+        else if (m[0] == 'N') {
+          int h = -1, d = -1, used = 0;
+          if (sscanf(m.c_str(), "N:%d:%d%n", &h, &d, &used) != 2 || (size_t)used != m.size() ||
+              h < 0 || h > 7 || d < 0 || d > 7) bad = true;
+          if (alive) bad = true;
+          nsteps += 1;
+        }
         else if (m[0] == 'R') {
           int h = -1, d = -1, used = 0;
           if (sscanf(m.c_str(), "R:%d:%d%n", &h, &d, &used) != 2 || (size_t)used != m.size() ||
@@ -334,7 +466,9 @@ int main(int argc, char **argv) {
         }
         else bad = true;
       }
+#ifndef C15_APP
       if (!sched.empty() && sched.back().gap > nsteps) bad = true;
+#endif
     }
     if (bad) { puts("bad-op"); continue; }
     ++ncase;
@@ -354,6 +488,11 @@ int main(int argc, char **argv) {
       g_cap = dup(capfd);
       switch (ok) {
       case OUT_FILE: dup2(capfd, 1); break;
+      case OUT_PART: {
+        dup2(capfd, 1);
+        struct sigaction sa; memset(&sa, 0, sizeof sa); sa.sa_handler = SIG_IGN; sigaction(SIGXFSZ, &sa, 0);
+        break;
+      }
       case OUT_PIPE: dup2(cpipe[1], 1); close(cpipe[1]); g_capr = cpipe[0]; break;
       case OUT_NULL: { int fd = open("/dev/null", O_WRONLY); if (fd < 0) _exit(92); dup2(fd, 1); close(fd); break; }
       case OUT_CLOSED: close(1); break;
@@ -369,7 +508,11 @@ int main(int argc, char **argv) {
         sigaction(SIGTERM, &sa, 0);
       }
       // restore default dispositions (the parent has none installed, but be explicit)
+#ifdef C15_APP
+      run_app(mode);
+#else
       run_child(mode, prog);
+#endif
       _exit(93);
     }
     close(pfd[1]);
